@@ -31,9 +31,9 @@ META = {
 }
 
 # shape fields that are list cardinalities (a case is non-trivial when at least one of them is > 0)
-LIST_DIMS = ("ntex", "nmat", "ngrp", "nport", "npref", "nvbl", "nlight", "ndd", "nds",
+LIST_DIMS = ("bits", "ntex", "nmat", "ngrp", "nport", "npref", "nvbl", "nlight", "ndd", "nds",
              "nvert", "nidx", "nnorm", "ntc", "ncol", "nbatch", "nbsp", "ndref", "liq")
-DIMS = ("ntex", "nmat", "ngrp", "nport", "npref", "nvbl", "nlight", "ndd", "nds", "sky", "names", "xf")
+DIMS = ("bits", "ntex", "nmat", "ngrp", "nport", "npref", "nvbl", "nlight", "ndd", "nds", "sky", "names", "xf")
 
 
 def sig(b):
@@ -54,7 +54,7 @@ def sig(b):
             if d in sh:
                 s[d] = sh[d]
     else:
-        for d in ("nvert", "nidx", "nnorm", "ntc", "ncol", "nbatch", "nbsp", "liq", "ndref", "xf"):
+        for d in ("nvert", "nidx", "nnorm", "ntc", "ncol", "nbatch", "nbsp", "liq", "ndref", "xf", "bits"):
             if d in sh:
                 s[d] = sh[d]
     return s
